@@ -7,13 +7,17 @@ package mpt
 // VERIF_BOUNDED_ITERS tries (default 2000), seed VERIF_SEED.
 
 import (
+	"bytes"
 	"math/rand"
 	"os"
+	"sort"
 	"strconv"
 	"testing"
 
 	"github.com/nspcc-dev/neo-go/pkg/core/storage"
 )
+
+func bytesCompareC10(a, b []byte) int { return bytes.Compare(a, b) }
 
 func TestVerifBoundedC10(t *testing.T) {
 	iters := 2000
@@ -68,6 +72,52 @@ func TestVerifBoundedC10(t *testing.T) {
 		tr.Flush(0)
 		if _, err := mc.Persist(); err != nil {
 			t.Fatal(err)
+		}
+		// Trie.Find: keys under a prefix, in order, strictly after prefix+from; prefix and from are
+		// cut out of a stored key (so that the prefix may end inside an extension node and `from`
+		// may be exactly the rest of its key) or random
+		for q := 0; q < 6 && len(keys) > 0; q++ {
+			k := keys[r.Intn(len(keys))]
+			i := r.Intn(len(k) + 1)
+			pfx := append([]byte{}, k[:i]...)
+			var from []byte
+			switch r.Intn(3) {
+			case 0:
+				j := i + r.Intn(len(k)-i+1)
+				from = append([]byte{}, k[i:j]...)
+			case 1:
+				from = gen()
+			}
+			if len(from) == 0 {
+				from = nil // an empty non-nil `from` means "after the prefix itself"; nil means no start point
+			}
+			var want []string
+			seen := map[string]bool{}
+			for _, kk := range keys {
+				if seen[string(kk)] || len(kk) < len(pfx) || string(kk[:len(pfx)]) != string(pfx) {
+					continue
+				}
+				seen[string(kk)] = true
+				if len(from) == 0 || bytesCompareC10(kk[len(pfx):], from) > 0 {
+					want = append(want, string(kk))
+				}
+			}
+			sort.Strings(want)
+			res, err := tr.Find(pfx, from, 1000)
+			if err != nil && len(want) > 0 {
+				t.Fatalf("FAILING-INPUT keys=%x find{prefix=%x from=%x}: %v, want %x", keys, pfx, from, err, want)
+			}
+			var got []string
+			for _, kv := range res {
+				got = append(got, string(kv.Key))
+			}
+			same := len(got) == len(want)
+			for x := 0; same && x < len(got); x++ {
+				same = got[x] == want[x]
+			}
+			if !same {
+				t.Fatalf("FAILING-INPUT keys=%x find{prefix=%x from=%x}: trie gives %x, want %x", keys, pfx, from, got, want)
+			}
 		}
 		st := NewTrieStore(tr.root.Hash(), ModeAll, tr.Store)
 		for q := 0; q < 6; q++ {
